@@ -95,3 +95,18 @@ def initializer(mark, fail_pids=()):
 
 def chunk_fn(x, y=0):
     return x * 10 + y
+
+
+def _fold(*args):
+    r = 0
+    for a in args:
+        r = r * 7 + a
+    return r
+
+
+def fold(*args):
+    esim.S.step("task.run")
+    return _fold(*args)
+
+
+fold.__wrapped__ = _fold
